@@ -170,6 +170,7 @@ def check(run):
     run.floor('C06-AGREE', sum(1 for o in run.obs if o.rule == 'C06-AGREE'), 19)
     run.attempt(outfile, run, p)
     run.attempt(inplace, run, p)
+    run.attempt(aligned, run, p)
     from .c02 import fuzz_shape
     fuzz_shape(run, p, 'C06-AGREE')     # the record-level fuzzy comparators use the same fuzz_down / fuzz_up as the aggregate ones
     run.rules['C06-AGREE'] += '; the record-level fuzzy comparators df_fuzzy_gt / df_fuzzy_lt have the shape of the aggregate ones (a op b or a op fuzz_down/up(b, epsilon))'
@@ -342,6 +343,91 @@ def inplace(run, p):
                    'store into the caller\'s frame `%s` under [%s]' % (norm(tgt)[:60], ' & '.join(g.text() for g in ch if g.kind == 'if')),
                    fn=f, node=tgt)
     run.floor('C06-INPLACE', n, 4)
+
+
+_REINDEXING = ('reset_index', 'sort_values', 'sort_index', 'set_index', 'reindex', 'sample')
+
+
+def aligned(run, p):
+    run.rule('C06-ALIGNED', 'the records reported as failing are the records that fail: pandas selects rows by a boolean mask, and assigns a '
+                            'Series to a column, by index *label*.  In the detection module (a) a row selection F[mask] whose mask was '
+                            'computed in an earlier statement has no re-indexing of F in between - in place (reset_index / sort_* / '
+                            'set_index with inplace=True, F.index = ...) on F or on a name that may be the same frame (plain copies '
+                            'followed), or by rebinding F to a re-indexed frame; (b) no Series is built from positional values without '
+                            'index=, because it would carry a fresh 0..n-1 index and be matched to the records by those labels')
+    m = p.mod('tdda.constraints.pd.constraints')
+    nsel = nser = 0
+    for f in p.funcs.values():
+        if f.mod is not m:
+            continue
+        nodes = list(p.own_nodes(f))
+        # plain copies: names that may denote the same frame
+        same = {}
+        for x in nodes:
+            if isinstance(x, ast.Assign) and isinstance(x.value, ast.Name):
+                for t in x.targets:
+                    if isinstance(t, ast.Name):
+                        same.setdefault(t.id, set()).add(x.value.id)
+                        same.setdefault(x.value.id, set()).add(t.id)
+
+        def aliases(nm):
+            out, todo = {nm}, [nm]
+            while todo:
+                for o in same.get(todo.pop(), ()):
+                    if o not in out:
+                        out.add(o)
+                        todo.append(o)
+            return out
+        masks = {}
+        for x in nodes:
+            if isinstance(x, ast.Assign) and len(x.targets) == 1 and isinstance(x.targets[0], ast.Name) and \
+                    any(isinstance(y, ast.Compare) or (isinstance(y, ast.Call) and isinstance(y.func, ast.Attribute) and y.func.attr in ('isin', 'isnull', 'notnull', 'isna', 'notna'))
+                        for y in ast.walk(x.value)) and not isinstance(x.value, (ast.ListComp, ast.IfExp, ast.BoolOp)):
+                masks.setdefault(x.targets[0].id, []).append(x)
+        for x in nodes:
+            if not (isinstance(x, ast.Subscript) and isinstance(x.value, ast.Name)):
+                continue
+            sl = x.slice
+            while isinstance(sl, ast.UnaryOp):
+                sl = sl.operand
+            if isinstance(sl, (ast.Compare, ast.Call)) and any(isinstance(y, ast.Name) and y.id == x.value.id for y in ast.walk(sl)):
+                nsel += 1               # mask computed from the frame in the selection itself
+                continue
+            if not (isinstance(sl, ast.Name) and sl.id in masks):
+                continue
+            nsel += 1
+            F = x.value.id
+            al = aliases(F)
+            made = max((d.lineno for d in masks[sl.id] if d.lineno < x.lineno), default=None)
+            if made is None:
+                continue
+            bad = None
+            for y in nodes:
+                if not (made < getattr(y, 'lineno', 0) <= x.lineno) or y is x:
+                    continue
+                if isinstance(y, ast.Call) and isinstance(y.func, ast.Attribute) and y.func.attr in _REINDEXING and isinstance(y.func.value, ast.Name) \
+                        and y.func.value.id in al and any(k.arg == 'inplace' and isinstance(k.value, ast.Constant) and k.value.value is True for k in y.keywords):
+                    bad = y
+                if isinstance(y, ast.Assign) and any(isinstance(t, ast.Attribute) and t.attr == 'index' and isinstance(t.value, ast.Name) and t.value.id in al for t in y.targets):
+                    bad = y
+                if isinstance(y, ast.Assign) and any(isinstance(t, ast.Name) and t.id == F for t in y.targets) and y.lineno < x.lineno and \
+                        any(isinstance(z, ast.Call) and isinstance(z.func, ast.Attribute) and z.func.attr in _REINDEXING for z in ast.walk(y.value)):
+                    bad = y
+            run.ob('C06-ALIGNED', '%s::%s::%s[%s]' % (f.rel, f.short, F, sl.id), bad is None,
+                   '%s[%s]: the mask is computed at line %d%s' % (F, sl.id, made, ' and nothing re-indexes %s before the selection' % F if bad is None else
+                                                                  '; `%s` at line %d then gives %s other labels, so the mask selects by labels that no longer name the same records' % (
+                                                                      norm(bad)[:60], bad.lineno, F)), fn=f, node=bad or x)
+        for x in nodes:
+            if isinstance(x, ast.Call) and norm(x.func) in ('pd.Series', 'Series', 'pandas.Series'):
+                nser += 1
+                first = x.args[0] if x.args else None
+                ok = any(k.arg == 'index' for k in x.keywords) or len(x.args) >= 2 or isinstance(first, ast.Dict) or first is None
+                run.ob('C06-ALIGNED', '%s::%s::%s' % (f.rel, f.short, norm(x)[:40]), ok,
+                       '%s %s' % (norm(x)[:60], 'carries the index it is given' if ok else 'is built from positional values without index=: it is labelled 0..n-1, and '
+                                  'assigning it to a column of the detection frame matches it to the records by those labels'), fn=f, node=x)
+    run.units['row_selections_examined'] = nsel
+    run.units['series_constructions_examined'] = nser
+    run.floor('C06-ALIGNED', nsel, 2)
 
 
 def vername(run, p, km):
